@@ -283,6 +283,9 @@ class Terms:
         if not c.indirect:
             if (c.key in TRANSPARENT or c.cpath in IDENTITY_CPATHS or (c.trait, c.name) in TRANSPARENT) and args:
                 return self.of_operand(args[0], depth)
+            if c.name in ("index", "index_mut") and c.trait in ("Index", "IndexMut") and len(args) == 2:
+                # container[idx] through the Index/IndexMut traits (Vec, Slab, SmallVec, FixedBitSet)
+                return ("index", self.of_operand(args[0], depth), self.of_operand(args[1], depth))
             if c.key in UNWRAP and args:
                 return ("field", ("variant", self.of_operand(args[0], depth), UNWRAP[c.key]), 0)
             if c.name in ("project", "project_ref") and c.local and PINPROJ.search(c.cpath or "") and args:
